@@ -17,7 +17,7 @@ import pandas as pd
 
 from simkit.engine import Engine, jhash
 from simkit.kernel import Crash, EventLog, INTERRUPTS, LogCapture, Rng, Violation, exc_class, vdig, dims_sig
-from engines.sysworld import (CLS, LT, DT, DEF_FAULTS, FILE_FAULTS, GenericSystem, build_system, expected_flow_name, fault_applicable,
+from engines.sysworld import (CLS, cls_of, LT, DT, DEF_FAULTS, FILE_FAULTS, GenericSystem, build_system, expected_flow_name, fault_applicable,
                               gen_sysworld, make_definition, param_values, _dim)
 
 from flodym import FlodymArray, DimensionSet, MFASystem, StockDrivenDSM, DynamicStockModel
@@ -459,8 +459,8 @@ class SysSim(Engine):
             bad("stocks-match", f"stock names {sorted(sys_.stocks)}")
         for s in world["stocks"]:
             so = sys_.stocks[s["name"]]
-            if type(so) is not CLS[s["cls"]]:
-                bad("stocks-match", f"stock '{s['name']}' is a {type(so).__name__}, requested {CLS[s['cls']].__name__}", field="class")
+            if type(so) is not cls_of(s):
+                bad("stocks-match", f"stock '{s['name']}' is a {type(so).__name__}, requested {cls_of(s).__name__}", field="class")
             if tuple(so.dims.letters) != tuple(s["dims"]):
                 bad("stocks-match", f"stock '{s['name']}' dims {so.dims.letters} instead of {tuple(s['dims'])}", field="dims")
             if so.time_letter != world["dims"][0]["letter"] or (s["lt"] is not None and so.lifetime_model.time_letter != world["dims"][0]["letter"]):
@@ -674,7 +674,13 @@ class SysSim(Engine):
             expect_pass = all(v <= tol for v in imb.values())
         with LogCapture() as cap:
             try:
-                sys_.check_mass_balance(tolerance=op["tol"], raise_error=bool(op["raise"]))
+                # the ways a caller writes it: keywords or positions, a Python bool or what numpy / a table cell hands over
+                style = (st.step + int(bool(op["raise"])) + len(sys_.flows)) % 4
+                flag = [bool(op["raise"]), np.bool_(bool(op["raise"])), int(bool(op["raise"])), bool(op["raise"])][style]
+                if style == 3:
+                    sys_.check_mass_balance(op["tol"], flag)
+                else:
+                    sys_.check_mass_balance(tolerance=op["tol"], raise_error=flag)
                 out = ("ret", None)
             except Exception as e:  # noqa
                 out = ("raise", exc_class(e))
@@ -749,7 +755,12 @@ class SysSim(Engine):
         tags = dict(mode="raise" if op["raise"] else "warn", no_stocks=not sys_.stocks, nan=any_nan, n_flagged=len(flagged))
         with LogCapture() as cap:
             try:
-                sys_.check_flows(exceptions=list(exceptions), raise_error=bool(op["raise"]), verbose=bool(op.get("verbose")))
+                style = (st.step + int(bool(op["raise"])) + len(exceptions)) % 4
+                flag = [bool(op["raise"]), np.bool_(bool(op["raise"])), int(bool(op["raise"])), bool(op["raise"])][style]
+                if style == 3:
+                    sys_.check_flows(list(exceptions), flag, bool(op.get("verbose")))
+                else:
+                    sys_.check_flows(exceptions=list(exceptions), raise_error=flag, verbose=bool(op.get("verbose")))
                 out = ("ret", None)
             except Exception as e:  # noqa
                 out = ("raise", exc_class(e))
